@@ -33,7 +33,7 @@ def _grid(n, prefix="p"):
     return ps, dom
 
 
-def replay_pp(model, n=3, mode="reference", labelled=False):
+def replay_pp(model, n=3, mode="reference", labelled=False, pdtype="f8"):
     import numpy as np
     from bluebonnet.flow import flowproperties as fp
     names = [f"p{k}" for k in range(n)] + [f"So{k}" for k in range(n)] + list(RHO) + ["scale"]
@@ -43,6 +43,12 @@ def replay_pp(model, n=3, mode="reference", labelled=False):
     kr = {k: uf_callable(model, k, 0.5) for k in KR_FUNCS}
     p = np.array([m[f"p{k}"] for k in range(n)])
     so = np.array([m[f"So{k}"] for k in range(n)])
+    if pdtype != "f8":
+        # an integer-typed pressure column (pd.read_csv of a 0, 10, 20, ... table, np.arange): whole, strictly increasing psi
+        q = [int(round(p[0]))]
+        for v in p[1:]:
+            q.append(max(int(round(v)), q[-1] + 1))
+        p = np.array(q, dtype={"i8": "int64", "i4": "int32"}[pdtype])
     if labelled:
         # the columns of a DataFrame whose rows were put in order with sort_values: labels n-1 .. 0
         import pandas as pd
@@ -72,7 +78,7 @@ def replay_pp(model, n=3, mode="reference", labelled=False):
     return bad, {"what": f"mobility scaled by {m['scale']!r}: {got2.tolist()} vs {m['scale']!r} x {got.tolist()}", "inputs": m}
 
 
-def job_pp(job, n, labelled=False):
+def job_pp(job, n, labelled=False, pdtype="f8"):
     mod = _load()
     job.encoded(mod, "pseudopressure_threephase")
     job.stub("pvt[...] / kr[...] interpolators: positive uninterpreted functions; scipy cumulative_trapezoid: exact")
@@ -93,6 +99,10 @@ def job_pp(job, n, labelled=False):
     kr = {k: _uf(k) for k in KR_FUNCS}
     parr, soarr = SymArray(ps, "f8"), SymArray(so, "f8")
     ltag = ""
+    if pdtype != "f8":
+        parr = SymArray(ps, pdtype)
+        ltag = f",{ {'i8': 'int64', 'i4': 'int32'}[pdtype] } pressure column"
+        job.bound(integer_pressures="the pressure column has an integer dtype (whole psi), saturations float64")
     if labelled:
         # pandas columns of a frame that was sorted into increasing pressure: values in order, labels n-1 .. 0
         lab = list(range(n - 1, -1, -1))
@@ -106,7 +116,7 @@ def job_pp(job, n, labelled=False):
         if pr.exc is not None:
             if isinstance(pr.exc, (KeyError, IndexError, ValueError, TypeError)):
                 job.prove(f"pp[{n}{ltag}]/raises {type(pr.exc).__name__}[path{k}]", pr.pc, bound=f"{n} rows", note=repr(pr.exc)[:100],
-                          replay=(replay_pp, {"n": n, "mode": "reference", "labelled": labelled}))
+                          replay=(replay_pp, {"n": n, "mode": "reference", "labelled": labelled, "pdtype": pdtype}))
             else:
                 job.errors.append(f"pseudopressure path {k} raised {pr.exc!r}")
             continue
@@ -124,15 +134,15 @@ def job_pp(job, n, labelled=False):
             d = T.p_sub(P(got.d[j]), P(want[j]))
             neq = T.b_const(False) if d.is_zero() else T.b_or(T.b_lt(tolb, d), T.b_lt(tolb, T.p_neg(d)))
             job.prove(f"pp[{n}{ltag}]/row{j}==trapezoid of documented mobility[path{k}]", pr.pc + [neq], bound=f"{n} rows, any table",
-                      replay=(replay_pp, {"n": n, "mode": "reference", "labelled": labelled}))
+                      replay=(replay_pp, {"n": n, "mode": "reference", "labelled": labelled, "pdtype": pdtype}))
         job.prove(f"pp[{n}{ltag}]/first row 0[path{k}]", pr.pc + [T.b_not(T.b_eq0(P(got.d[0])))], bound=f"{n} rows",
-                  replay=(replay_pp, {"n": n, "mode": "increasing", "labelled": labelled}))
+                  replay=(replay_pp, {"n": n, "mode": "increasing", "labelled": labelled, "pdtype": pdtype}))
         job.prove(f"pp[{n}{ltag}]/strictly increasing for positive mobility[path{k}]",
                   pr.pc + [T.b_or(*[T.b_le(P(got.d[j + 1]), P(got.d[j])) for j in range(n - 1)])], bound=f"{n} rows",
-                  replay=(replay_pp, {"n": n, "mode": "increasing", "labelled": labelled}))
+                  replay=(replay_pp, {"n": n, "mode": "increasing", "labelled": labelled, "pdtype": pdtype}))
         job.prove(f"pp[{n}{ltag}]/homogeneous in mobility[path{k}]",
                   pr.pc + [T.b_or(*[T.b_not(T.b_eq0(T.p_sub(P(got2.d[j]), P(vs["scale"] * got.d[j])))) for j in range(n)])],
-                  bound=f"{n} rows", replay=(replay_pp, {"n": n, "mode": "scale", "labelled": labelled}))
+                  bound=f"{n} rows", replay=(replay_pp, {"n": n, "mode": "scale", "labelled": labelled, "pdtype": pdtype}))
         job.prove(f"pp[{n}{ltag}]/reach[path{k}]", pr.pc, expect="sat")
     # translator validation
     import numpy as np
@@ -277,7 +287,8 @@ def job_table(job, n, node):
 
 
 def jobs(tier):
-    out = [("pp3", lambda j: job_pp(j, 3)), ("pp3-labelled", lambda j: job_pp(j, 3, labelled=True))]
+    out = [("pp3", lambda j: job_pp(j, 3)), ("pp3-labelled", lambda j: job_pp(j, 3, labelled=True)),
+           ("pp3-int-pressure", lambda j: job_pp(j, 3, pdtype="i8"))]
     if tier != "quick":
         out += [("pp4", lambda j: job_pp(j, 4)), ("pp5", lambda j: job_pp(j, 5))]
     out += [("table3-node1", lambda j: job_table(j, 3, 1)), ("table3-node2", lambda j: job_table(j, 3, 2))]
